@@ -486,7 +486,10 @@ class Lib:
             return Builtin(f"dict.{name}", lambda I_, a, k: self.pydict_method(I_, v, name, a, k, node))
         if isinstance(v, list):
             if name == "append":
-                return Builtin("list.append", lambda I_, a, k: v.append(a[0]))
+                def append(I_, a, k):
+                    I_.w.check_not_shared(v, "append")
+                    v.append(a[0])
+                return Builtin("list.append", append)
         if isinstance(v, FuncVal) and name in v.marks:
             return v.marks[name]
         if is_sym(v) and hasattr(self, "sym_attr"):
@@ -499,7 +502,7 @@ class Lib:
         raise Unsupported(f"attribute {name} of {v!r}")
 
     def pydict_method(self, I, d, name, a, k, node):
-        if name in ("get", "pop") and a and isinstance(a[0], (Sym, Obj)):
+        if name in ("get", "pop") and a and I.has_symbolic_part(a[0]):
             if name == "pop":
                 raise Unsupported("dict.pop with a symbolic key on a concrete dict")
             for key in list(d):  # a symbolic key into a concrete table: one path per entry it can equal, then the default
@@ -509,6 +512,7 @@ class Lib:
         if name == "get":
             return d.get(a[0], a[1] if len(a) > 1 else None)
         if name == "pop":
+            I.w.check_not_shared(d, "pop")
             if a[0] in d:
                 return d.pop(a[0])
             if len(a) > 1:
@@ -663,6 +667,33 @@ class Lib:
             return Sym(z3.Length(v.term), "int")
         if isinstance(v, LibObj) and hasattr(v, "length"):
             return v.length(I)
+        if isinstance(v, LibObj) and v.kind == "local_dict":
+            v = v.heap if v.heap is not None else v
+            if isinstance(v, LibObj):
+                return len(v.py)
+        if isinstance(v, Obj) and v.typ.kind == "dict":
+            # len of a heap dict: an uninterpreted cardinality of its key set with the facts that hold for every finite set
+            # (ground instances only: a refutation that leans on it is a candidate for native replay, as with strings)
+            dom = I.d_dom(v)
+            ks = sort_of(v.typ.args[0])
+            card = z3.Function(f"card[{ks}]", arr(ks, BoolS), IntS)
+            n = card(dom)
+            c = I.c
+            c.assume(n >= 0)
+            c.assume((n == 0) == (dom == z3.K(ks, z3.BoolVal(False))))
+            if v.typ.args[0] == TInt:
+                wit = c.fresh("len_witness", IntS)  # n >= 1 -> some key exists; n >= 2 -> two different keys exist
+                wit2 = c.fresh("len_witness", IntS)
+                c.assume(z3.Implies(n >= 1, z3.Select(dom, wit)))
+                c.assume(z3.Implies(n >= 2, z3.And(z3.Select(dom, wit2), wit2 != wit)))
+                I.d_elem_facts(v, wit)
+                I.d_elem_facts(v, wit2)
+                lo, hi = c.fresh("len_lo", IntS), c.fresh("len_hi", IntS)  # a key range of width w holds at most w keys
+                kq = z3.Int("k_len")
+                c.assume(z3.Implies(z3.ForAll([kq], z3.Implies(z3.Select(dom, kq), z3.And(lo <= kq, kq <= hi))), n <= hi - lo + 1))
+                if tname(v.typ.args[1]) == "Node":
+                    c.assume(n <= 256)  # WF: registry keys are 0..255
+            return Sym(n, "int")
         raise Unsupported("len")
 
     def b_max(self, I, a, k):
